@@ -6,6 +6,8 @@ import (
 	"regexp"
 	"strings"
 	"time"
+	"unicode"
+	"unicode/utf8"
 
 	"verif/internal/devsim"
 	"verif/internal/mon"
@@ -23,15 +25,96 @@ var fillers = []string{
 	"of", "image", "flash:", "tftp", "name", "with", "and", "is", "16384", "0x1f", "vrf", "mgmt",
 }
 
+// Non-ASCII vocabularies: letters with case from the Latin-1 supplement, Cyrillic and Greek, plus a
+// few whose case mapping changes the byte length (U+2C65/U+023A, U+2C66/U+023E, and the Kelvin and
+// Ohm signs, which only occur as upper-case renderings). Excluded on purpose: sharp s, final
+// sigma, dotless/dotted i, micro sign - letters for which "case-insensitive" has other readings
+// than lower-casing both sides with the simple mapping. checkVocab verifies the round trips.
+var scriptWords = map[string][]string{
+	"latin1":   {"änderung", "übernehmen", "bestätigen", "löschen", "gefährlich", "contraseña", "terminé", "échec", "données", "übertragen"},
+	"cyrillic": {"пароль", "подтвердите", "продолжить", "ошибка", "готово", "логин", "удалить", "перезагрузка"},
+	"greek":    {"κωδικό", "επιβεβαίωση", "συνέχεια", "σφάλμα", "όνομα", "έτοιμο", "διαγραφή"},
+	"mixed":    {"ⱥⱦlas", "kelvin", "ωmega", "пароль", "übernehmen", "κωδικό", "échec", "ⱦransfer"},
+}
+
+var scriptFillers = map[string][]string{
+	"latin1":   {"für", "über", "où", "déjà", "año", "müssen", "être"},
+	"cyrillic": {"и", "на", "для", "это", "файл", "будет"},
+	"greek":    {"και", "για", "το", "αρχείο", "είναι"},
+	"mixed":    {"für", "для", "και", "ⱥⱦ", "это", "où"},
+}
+
+// specialUpper: upper-case renderings that strings.ToUpper does not produce (compatibility signs
+// whose simple lower-case mapping is an ordinary letter of different byte length).
+var specialUpper = map[string]string{"kelvin": "\u212aELVIN", "ωmega": "\u2126MEGA"}
+
+func title(w string) string {
+	r, n := utf8.DecodeRuneInString(w)
+	return string(unicode.ToUpper(r)) + w[n:]
+}
+
+func checkVocab() {
+	chk := func(w string) {
+		if !utf8.ValidString(w) || strings.ToLower(w) != w || strings.ToLower(strings.ToUpper(w)) != w || strings.ToLower(title(w)) != w ||
+			strings.ContainsAny(w, "ßςıİµſ") {
+			panic("c18: vocabulary word does not round-trip through the simple case mapping: " + w)
+		}
+	}
+	for _, l := range scriptWords {
+		for _, w := range l {
+			chk(w)
+		}
+	}
+	for _, l := range scriptFillers {
+		for _, w := range l {
+			chk(w)
+		}
+	}
+	for w, u := range specialUpper {
+		if strings.ToLower(u) != w {
+			panic("c18: special upper-case form does not lower to its word: " + w)
+		}
+	}
+}
+
 var answerWords = []string{"y", "yes", "n", "no", "", "admin", "s3cret", "flash:/img.bin", "10.0.0.1", "confirm", "retry", "q"}
 
 var inputs = []string{"copy running-config tftp:", "reload in 5", "delete flash:/old.bin", "enable", "install add file", ""}
 
 var tails = []string{": ", "? ", "? [y/n]: ", " [confirm]", ":", "> ", "\n", "", " (yes/no)? ", "...\n"}
 
+var scriptTails = map[string][]string{
+	"latin1":   {"? [j/n]: ", " (sí/no)? ", " [O/N]: "},
+	"cyrillic": {" (да/нет)? ", " [Д/Н]: "},
+	"greek":    {" [ναι/όχι]: ", " (Ν/Ο)? "},
+	"mixed":    {"? [j/n]: ", " (да/нет)? "},
+}
+
 type gen struct {
-	r    *rand.Rand
-	rend map[string]string
+	r      *rand.Rand
+	rend   map[string]string
+	script string   // "" = ASCII only
+	pool   []string // keywords of this case
+	fills  []string
+	tails  []string
+	long   bool // occasionally very long texts (the accumulated output shrinks and grows a lot between checks)
+}
+
+func newGen(r *rand.Rand) *gen {
+	g := &gen{r: r, rend: map[string]string{}, pool: keywords, fills: fillers, tails: tails}
+	if r.Intn(100) < 55 {
+		g.script = []string{"latin1", "cyrillic", "greek", "mixed"}[r.Intn(4)]
+		// the script's words first in line (chain() takes its keywords from a permutation of the
+		// pool), diluted with a few ASCII ones
+		g.pool = append([]string(nil), scriptWords[g.script]...)
+		for _, i := range r.Perm(len(keywords))[:6] {
+			g.pool = append(g.pool, keywords[i])
+		}
+		g.fills = append(append([]string(nil), fillers...), scriptFillers[g.script]...)
+		g.fills = append(g.fills, scriptFillers[g.script]...)
+		g.tails = append(append([]string(nil), tails...), scriptTails[g.script]...)
+	}
+	return g
 }
 
 func (g *gen) render(w string) string {
@@ -39,11 +122,14 @@ func (g *gen) render(w string) string {
 		return v
 	}
 	v := w
-	switch g.r.Intn(5) {
+	switch g.r.Intn(6) {
 	case 2, 3:
-		v = strings.ToUpper(w[:1]) + w[1:]
-	case 4:
+		v = title(w)
+	case 4, 5:
 		v = strings.ToUpper(w)
+		if u, ok := specialUpper[w]; ok && g.r.Intn(3) != 0 {
+			v = u
+		}
 	}
 	g.rend[w] = v
 	return v
@@ -54,7 +140,7 @@ func (g *gen) anyCase(w string) string {
 	case 0:
 		return strings.ToUpper(w)
 	case 1:
-		return strings.ToUpper(w[:1]) + w[1:]
+		return title(w)
 	}
 	return w
 }
@@ -69,7 +155,11 @@ func swapCase(s string) string {
 func (g *gen) fill(n int) []string {
 	var o []string
 	for i := 0; i < n; i++ {
-		o = append(o, fillers[g.r.Intn(len(fillers))])
+		w := g.fills[g.r.Intn(len(g.fills))]
+		if g.script != "" {
+			w = g.anyCase(w) // the device prints filler in any case, too (material for not-contains)
+		}
+		o = append(o, w)
 	}
 	return o
 }
@@ -80,7 +170,11 @@ func (g *gen) fill(n int) []string {
 func (g *gen) stageText(kws []string) (text string, before, after []string) {
 	r := g.r
 	var b strings.Builder
-	for i := r.Intn(3); i > 0; i-- {
+	pre := r.Intn(3)
+	if g.long && r.Intn(6) == 0 {
+		pre = 5 + r.Intn(8)
+	}
+	for i := pre; i > 0; i-- {
 		l := g.fill(1 + r.Intn(4))
 		before = append(before, l...)
 		b.WriteString(strings.Join(l, " ") + "\n")
@@ -105,7 +199,7 @@ func (g *gen) stageText(kws []string) (text string, before, after []string) {
 		after = g.fill(1 + r.Intn(2))
 		b.WriteString(" " + strings.Join(after, " "))
 	}
-	b.WriteString(tails[r.Intn(len(tails))])
+	b.WriteString(g.tails[r.Intn(len(g.tails))])
 	return b.String(), before, after
 }
 
@@ -114,7 +208,12 @@ func (g *gen) trigger(cb *CB, w string) {
 	r := g.r
 	cb.Contains, cb.Re, cb.Sensitive = "", "", false
 	q := regexp.QuoteMeta(w)
-	switch r.Intn(12) {
+	form := r.Intn(12)
+	if nonASCII(w) && (form == 9 || form == 10) {
+		// \b is an ASCII word boundary: useless next to a non-ASCII letter
+		form = []int{0, 3, 5, 6, 11}[r.Intn(5)]
+	}
+	switch form {
 	case 0, 1, 2:
 		cb.Contains = w
 	case 3:
@@ -123,18 +222,24 @@ func (g *gen) trigger(cb *CB, w string) {
 		cb.Sensitive = true
 		cb.Contains = g.render(w)
 	case 5:
-		cut := len(w) - 2
+		rs := []rune(w)
+		cut := len(rs) - 2
 		if cut < 2 {
-			cut = len(w)
+			cut = len(rs)
 		}
-		cb.Re = regexp.QuoteMeta(w[:cut]) + `\w*`
+		// \w is ASCII-only: for a non-ASCII word the rest is matched as "non-space"
+		if nonASCII(w) {
+			cb.Re = regexp.QuoteMeta(string(rs[:cut])) + `\S*`
+		} else {
+			cb.Re = regexp.QuoteMeta(string(rs[:cut])) + `\w*`
+		}
 	case 6:
 		cb.Re = q + `[:?]?\s*$` // holds only while the accumulated output ends right after the word
 	case 7:
-		other := keywords[r.Intn(len(keywords))]
+		other := g.pool[r.Intn(len(g.pool))]
 		cb.Re = `(` + regexp.QuoteMeta(other) + `|` + q + `)`
 	case 8:
-		cb.Re = `(?i)` + regexp.QuoteMeta(strings.ToUpper(w[:1])+w[1:]) // own case flag
+		cb.Re = `(?i)` + regexp.QuoteMeta(title(w)) // own case flag
 		cb.Sensitive = r.Intn(2) == 0
 	case 9:
 		cb.Contains = "zz-never"
@@ -160,6 +265,16 @@ func (g *gen) notContains(cb *CB, before, after []string, others []string) {
 		if len(c) == 0 {
 			return ""
 		}
+		// prefer words with non-ASCII letters when there are any
+		var na []string
+		for _, w := range c {
+			if nonASCII(w) {
+				na = append(na, w)
+			}
+		}
+		if len(na) > 0 && r.Intn(3) != 0 {
+			return na[r.Intn(len(na))]
+		}
 		return c[r.Intn(len(c))]
 	}
 	w := ""
@@ -180,7 +295,7 @@ func (g *gen) notContains(cb *CB, before, after []string, others []string) {
 			cb.NotContains = swapCase(w) // present only in the other case: does not exclude
 		}
 	} else {
-		cb.NotContains = g.anyCase(w)
+		cb.NotContains = g.anyCase(strings.ToLower(w))
 	}
 }
 
@@ -212,12 +327,14 @@ func (g *gen) chain(fam string) Desc {
 	r := g.r
 	d := Desc{Family: fam, Hint: "complete", Replies: map[string][]string{}, MaxLines: 12, Echo: r.Intn(2) == 0}
 	k := 1 + r.Intn(4)
-	perm := r.Perm(len(keywords))
+	d.Script = g.script
+	g.long = fam == "chain" || fam == "once"
+	perm := r.Perm(len(g.pool))
 	K := make([]string, k+1)
 	for i := range K {
-		K[i] = keywords[perm[i]]
+		K[i] = g.pool[perm[i]]
 	}
-	spare := []string{keywords[perm[k+1]], keywords[perm[k+2]], keywords[perm[k+3]]}
+	spare := []string{g.pool[perm[k+1]], g.pool[perm[k+2]], g.pool[perm[k+3]]}
 	texts := make([]string, k+1)
 	befores := make([][]string, k+1)
 	afters := make([][]string, k+1)
@@ -241,7 +358,7 @@ func (g *gen) chain(fam string) Desc {
 	cut := -1 // the device does not answer stage `cut`'s answer
 	repeatAt, repeatN := -1, 0
 	ntAt, ntMs := -1, 0
-	d.TimeoutMs = []int{800, 1500}[r.Intn(2)]
+	d.TimeoutMs = []int{600, 900}[r.Intn(2)]
 	noComplete := false
 	mismatchComplete := false
 	retained := false
@@ -253,7 +370,7 @@ func (g *gen) chain(fam string) Desc {
 		case 0:
 			noComplete = true
 		case 1:
-			texts[k] = strings.Join(g.fill(1+r.Intn(4)), " ") + tails[r.Intn(len(tails))]
+			texts[k] = strings.Join(g.fill(1+r.Intn(4)), " ") + g.tails[r.Intn(len(g.tails))]
 			noComplete = r.Intn(2) == 0
 		case 2:
 			cut = r.Intn(k)
@@ -389,6 +506,9 @@ func (g *gen) chain(fam string) Desc {
 	}
 	r.Shuffle(len(cbs), func(i, j int) { cbs[i], cbs[j] = cbs[j], cbs[i] })
 	d.CBs = cbs
+	if fam == "chain" && d.Input != "" && r.Intn(5) < 2 {
+		d.Rounds = 2 + r.Intn(2)
+	}
 	g.transport(&d)
 	if retained && r.Intn(4) != 0 {
 		// the text must end with the chunk that completes the keyword, else the next chunk's
@@ -400,11 +520,12 @@ func (g *gen) chain(fam string) Desc {
 
 func (g *gen) soup() Desc {
 	r := g.r
-	d := Desc{Family: "soup", Hint: "any", Replies: map[string][]string{}, MaxLines: 10, Echo: r.Intn(2) == 0, TimeoutMs: 500}
-	perm := r.Perm(len(keywords))
+	d := Desc{Family: "soup", Hint: "any", Replies: map[string][]string{}, MaxLines: 10, Echo: r.Intn(2) == 0, TimeoutMs: 450}
+	d.Script = g.script
+	perm := r.Perm(len(g.pool))
 	sub := make([]string, 5)
 	for i := range sub {
-		sub[i] = keywords[perm[i]]
+		sub[i] = g.pool[perm[i]]
 	}
 	as := make([]string, 3)
 	for i := range as {
@@ -461,7 +582,7 @@ func (g *gen) silent() Desc {
 	}
 	for i, n := 0, 1+r.Intn(2); i < n; i++ {
 		cb := CB{Name: fmt.Sprintf("cb%d", i), Answers: true, Answer: "y", Complete: i == 0 && r.Intn(2) == 0}
-		g.trigger(&cb, keywords[r.Intn(len(keywords))])
+		g.trigger(&cb, g.pool[r.Intn(len(g.pool))])
 		d.CBs = append(d.CBs, cb)
 	}
 	d.Repeat, d.RepeatMs = 30, 3+r.Intn(6)
@@ -502,10 +623,8 @@ func admissible(d Desc) bool {
 		if strings.ContainsAny(s, "\r\x1b") {
 			return false
 		}
-		for i := 0; i < len(s); i++ {
-			if s[i] >= 0x80 {
-				return false
-			}
+		if !utf8.ValidString(s) {
+			return false
 		}
 	}
 	return true
@@ -522,7 +641,7 @@ func flat(m map[string][]string) []string {
 // GenCase draws one admissible case.
 func GenCase(r *rand.Rand) Desc {
 	for {
-		g := &gen{r: r, rend: map[string]string{}}
+		g := newGen(r)
 		var d Desc
 		x := r.Intn(100)
 		switch {
@@ -548,6 +667,7 @@ func GenCase(r *rand.Rand) Desc {
 }
 
 func init() {
+	checkVocab()
 	mon.Register(&mon.Property{
 		ID:    "C18",
 		Level: "exploration",
